@@ -302,7 +302,9 @@ def run_native(so, kernel, tuples, timeout=60):
         lines = [l for l in p.stdout.split('\n') if l.strip()]
         res += ['ret=%s' % l.strip() for l in lines]
         i += len(lines)
-        if p.returncode != 0 and i < len(tuples):
+        if p.returncode >= 64 and p.returncode < 128 and i < len(tuples):
+            res.append('ret=%d' % (p.returncode - 64)); i += 1      # verif_exit(code) of the harness bridge
+        elif p.returncode != 0 and i < len(tuples):
             res.append('abort'); i += 1
         elif p.returncode == 0:
             break
